@@ -406,13 +406,18 @@ class AvxHooks(C04.ParserHooks):
 
     def call(self, num, st, e, args):
         c = e.get("callee") or ""
+        if c in HELPER_REQ:
+            num.__dict__.setdefault("helper_calls", []).append((e, st.copy(), list(args)))
         if c in ("encode_stride", "decode", "encode_chars"):
             t = num.ty(e)
             return Poly.atom(num.fresh(st, c, t)) if ("w" in t or t.get("ptr")) else None
         return C04.ParserHooks.call(self, num, st, e, args)
 
 
-VEC = {"_mm256_loadu_si256": (0, 32), "_mm256_storeu_si256": (0, 32), "_mm256_lddqu_si256": (0, 32)}
+VEC = {"_mm256_loadu_si256": (0, 32), "_mm256_storeu_si256": (0, 32), "_mm256_lddqu_si256": (0, 32), "_mm_storeu_si128": (0, 16), "_mm_loadu_si128": (0, 16),
+       "_mm_storel_epi64": (0, 8), "_mm_loadl_epi64": (0, 8)}
+# helper contracts (bytes readable at `in`, bytes writable at `out`): verified on the helper's body, checked at its call sites
+HELPER_REQ = {"decode": {"in": 32, "out": 24}}
 
 
 def avx_shell(R, P):
@@ -473,6 +478,7 @@ def avx_shell(R, P):
             bad = [r_ for r_ in res if not r_[0]]
             R.check(not bad, "AVX-SHELL", "%s:loop@%s:progress" % (name, (B.term_loc or [0])[0]), "%s:%s" % (AVX, (B.term_loc or [0])[0]), "every iteration consumes input")
     pad_tail(R, P)
+    helper_contracts(R, P)
     # the contract assumed above holds at the call sites
     for caller, kern, chk in (("aws_base64_encode", "aws_common_private_base64_encode_sse41", "enc"), ("aws_base64_decode", "aws_common_private_base64_decode_sse41", "dec")):
         f = P.fn(caller)
@@ -517,6 +523,71 @@ def avx_shell(R, P):
             ok = ok and any(z.blk in inner and ev_dominates(f, z, c, dom) for z in clr)
         R.check(ok, "AVX-SHELL", "encode_sse41:bounce-buffer-cleared-per-iteration", where(f, cps[0]) if cps else f.name, "the partial copy into the bounce buffer follows a clear in the same loop iteration",
                 "the bounce buffer is partially overwritten without being cleared in that iteration: bytes of the previous stride leak into the encoding")
+
+
+def helper_contracts(R, P):
+    """the per-vector helper of the decoder: reads one whole vector, writes exactly the decoded 24 bytes.  Its accesses are
+    bounded by that contract (NUM on its body), and every call site provides that much room (NUM on the shell)."""
+    from sa.bounds import EntryExtents
+    for hname, req in sorted(HELPER_REQ.items()):
+        f = P.fn(hname)
+        if not R.require(f is not None, "%s() not found in %s" % (hname, AVX)):
+            continue
+        R.fn(f)
+        pnames = [p["n"] for p in f.params]
+        pairs = {pnames[i]: sz for i, sz in enumerate(req.values())}
+        num = Num(f, P, EntryExtents(AvxHooks(), f, pairs), max_paths=4000)
+        sites = list(access_sites(f))
+        vec = [(el["id"], x) for b in f.blocks.values() for el in b.elems for x in f.walk(el) if x["k"] == "call" and x.get("callee") in VEC]
+        try:
+            sts = num.states_at({s[0] for s in sites} | {v[0] for v in vec})
+        except Limit as ex:
+            R.broken(str(ex))
+            continue
+        ok, det, cnt = True, "", 0
+        for eid, kind, nd in sites:
+            if not any(p in f.show(nd) for p in pnames):
+                continue
+            for st in sts.get(eid, []):
+                s2 = st.copy()
+                for (D, sz, mode) in addr_size(num, s2, kind, nd):
+                    cnt += 1
+                    r = in_bounds(s2, D, sz)
+                    if r[0] != "ok":
+                        ok, det = False, "%s: %s" % (f.show(nd)[:50], r[1])
+        for eid, x in vec:
+            pi, size = VEC[x["callee"]]
+            if not any(p in f.show(x["a"][pi]) for p in pnames):
+                continue
+            for st in sts.get(eid, []):
+                s2 = st.copy()
+                cnt += 1
+                r = in_bounds(s2, num.val(x["a"][pi], s2), Poly.const(size))
+                if r[0] != "ok":
+                    ok, det = False, "%s(%s): %s" % (x["callee"], f.show(x["a"][pi])[:40], r[1])
+        R.check(ok and cnt >= 3, "AVX-SHELL", "%s:stays-inside-its-contract" % hname, "%s in %s()" % (AVX, hname), "reads at most %d bytes of `%s` and writes at most %d bytes of `%s` (%d accesses)" % (req["in"], pnames[0], req["out"], pnames[1], cnt),
+                "%s() touches memory outside what its callers provide (%d readable, %d writable): %s - in the whole-vector loop the output is the caller's buffer, so the bytes behind the decoded text are overwritten" % (hname, req["in"], req["out"], det))
+    g = P.fn("aws_common_private_base64_decode_sse41")
+    if g is not None:
+        num = Num(g, P, AvxHooks(), max_paths=20000)
+        try:
+            num.states_at({-1})
+        except Limit as ex:
+            R.broken(str(ex))
+        calls = getattr(num, "helper_calls", [])
+        by = {}
+        for e, st, args in calls:
+            req = list(HELPER_REQ[e["callee"]].values())
+            o = by.setdefault(e["id"], [e, True, "", 0])
+            o[3] += 1
+            for a, sz in zip(args, req):
+                r = in_bounds(st, a, Poly.const(sz)) if a is not None else ("fail", "argument not numeric")
+                if r[0] != "ok":
+                    o[1], o[2] = False, r[1]
+        for eid, (e, ok, det, cnt) in sorted(by.items()):
+            R.check(ok, "AVX-SHELL", "decode_sse41:%s-call-line%d" % (e["callee"], e.get("loc", [0])[0]), where(g, e), "the helper is given a whole readable vector and room for its 24 output bytes (%d states)" % cnt,
+                    "a call of %s() does not provide the room its contract needs: %s" % (e["callee"], det))
+        R.require(len(by) >= 2, "decode_sse41: only %d helper calls analysed" % len(by))
 
 
 class _NonEmpty(AvxHooks):
@@ -677,6 +748,7 @@ MUTANTS = [
 MUTANTS = [m for m in MUTANTS if m["name"] != "reported-more-than-written"]
 MUTANTS.append({"name": "decoded-len-ignores-second-pad", "file": ENC, "expect": "LENGTHS", "old": "        padding = 2;", "new": "        padding = 1;"})
 MUTANTS.append({"name": "avx-decode-loop-eats-padded-tail", "file": AVX, "expect": "AVX-SHELL", "old": "    while (len > 32) {", "new": "    while (len >= 32) {"})
+MUTANTS.append({"name": "avx-decode-helper-stores-whole-vector", "file": AVX, "expect": "AVX-SHELL", "old": "    _mm_storeu_si128((__m128i *)out, lo);\n    memcpy(out + 16, p_hi, sizeof(*p_hi));", "new": "    (void)lo;\n    (void)p_hi;\n    _mm256_storeu_si256((__m256i *)out, vec);"})
 MUTANTS.append({"name": "avx-bounce-clear-removed", "file": AVX, "expect": "AVX-SHELL", "old": "        memset(&instride, 0, sizeof(instride));\n", "new": ""})
 for _m in MUTANTS:
     _m.setdefault("scope", {"rules": [_m["expect"]]})
